@@ -1,6 +1,6 @@
 PLAN['C04'] = dict(
     level='exploration',
-    units=std_units('C04', [('asan', 'sdcz', 1500, 150000), ('plain', 'sdcz', 500, 50000), ('asan-vb', 'sdcz', 400, 30000), ('asan-i64', 'sdcz', 400, 30000)], chunk=100),
+    units=std_units('C04', [('asan', 'sdcz', 3000, 150000), ('plain', 'sdcz', 1000, 50000), ('asan-vb', 'sdcz', 800, 30000), ('asan-i64', 'sdcz', 800, 30000)], chunk=100),
     rule='exactly singular matrices by construction (empty rows/columns in any number and position, Hall violations without empty lines, proportional row/column pairs with +-2^k or small-integer data) and exactly nonsingular controls (permuted triangular), '
          'through ?gstrf (FE_INEXACT exactness witness), ?gssv, ?gssvx and ?gssvx refactorizations that reuse remembered row pivots (thresholds incl. 0); clause "reported exactly when" is asserted only on executions witnessed exact or with rounding-immune deficiency; '
          'non-trivial = a singular return was inspected or the verdict was decided; distinct = hash(pattern, route, ColPerm, storage, outcome)',
